@@ -76,12 +76,37 @@ Definition compact (np nl ns : nat) (st : state) : state :=
 
 Definition cstep (np nl ns : nat) (st : state) (a : action) : state := compact np nl ns (step st a).
 
-Fixpoint settle (fuel np nl ns : nat) (st : state) : state :=
+(* Back-pressure: the harness can gate the stream of a call. An armed call runs
+   normally until one of its passes has something to send; it then stays
+   parked inside strm.Send (between two lock regions: its pass is complete in
+   the model, it takes no further action) until the script opens the gate. *)
+Record gates := { g_al : list nat; g_as : list nat; g_pl : list nat; g_ps : list nat }.
+Definition no_gates : gates := {| g_al := []; g_as := []; g_pl := []; g_ps := [] |}.
+
+Definition next_internal_g (nl ns : nat) (g : gates) (st : state) : option action :=
+  match first_some (fun c => if memb c (g_pl g) then None else linternal st c) (seq 0 nl) with
+  | Some a => Some a
+  | None => first_some (fun c => if memb c (g_ps g) then None else sinternal st c) (seq 0 ns)
+  end.
+
+(* after an internal action of an armed call that produced output the call is parked *)
+Definition park (g : gates) (st st' : state) (a : action) : gates :=
+  match a with
+  | ListenIter c _ _ =>
+    if memb c (g_al g) && (length (lc_out (lcalls st c)) <? length (lc_out (lcalls st' c)))
+    then {| g_al := g_al g; g_as := g_as g; g_pl := c :: g_pl g; g_ps := g_ps g |} else g
+  | SessIter c =>
+    if memb c (g_as g) && (length (sc_out (scalls st c)) <? length (sc_out (scalls st' c)))
+    then {| g_al := g_al g; g_as := g_as g; g_pl := g_pl g; g_ps := c :: g_ps g |} else g
+  | _ => g
+  end.
+
+Fixpoint settle (fuel np nl ns : nat) (g : gates) (st : state) : state * gates :=
   match fuel with
-  | 0 => st
-  | S f => match next_internal nl ns st with
-           | Some a => settle f np nl ns (cstep np nl ns st a)
-           | None => st
+  | 0 => (st, g)
+  | S f => match next_internal_g nl ns g st with
+           | Some a => let st' := cstep np nl ns st a in settle f np nl ns (park g st st' a) st'
+           | None => (st, g)
            end
   end.
 
@@ -102,32 +127,48 @@ Definition count_alive (nl ns : nat) (st : state) : nat :=
   length (filter (fun c => alive (lc_st (lcalls st c))) (seq 0 nl)) +
   length (filter (fun c => alive (sc_st (scalls st c))) (seq 0 ns)).
 
+(* scripted operations: relay actions, or arming/opening the gate of a stream *)
+Inductive sop := Act (a : action) | GateL (c : nat) | GateS (c : nat) | OpenL (c : nat) | OpenS (c : nat).
+
 Record acc := {
   a_st : state;
+  a_g : gates;
   a_seen : list nat;                 (* per listen call: length of lc_out already put in a segment *)
   a_segs : list (list (list nat));   (* per listen call: sorted encoded segments, newest first *)
   a_sizes : list (nat * nat * nat) } (* newest first *).
 
-Fixpoint zip3 (cs : list nat) (seen : list nat) (segs : list (list (list nat))) (st : state)
+(* the output of a parked listen call is not visible before its gate opens *)
+Fixpoint zip3 (parked : list nat) (cs : list nat) (seen : list nat) (segs : list (list (list nat))) (st : state)
   : list nat * list (list (list nat)) :=
   match cs, seen, segs with
   | c :: cs', n :: seen', sg :: segs' =>
     let out := lc_out (lcalls st c) in
     let fresh := skipn n out in
-    let '(s', g') := zip3 cs' seen' segs' st in
-    (length out :: s', (if is_nil fresh then sg else sort (map enc_lresp fresh) :: sg) :: g')
+    let '(s', g') := zip3 parked cs' seen' segs' st in
+    if memb c parked then (n :: s', sg :: g')
+    else (length out :: s', (if is_nil fresh then sg else sort (map enc_lresp fresh) :: sg) :: g')
   | _, _, _ => ([], [])
   end.
 
-Definition do_op (np nl ns : nat) (a : acc) (op : action) : acc :=
-  let st := settle 400 np nl ns (cstep np nl ns (a_st a) op) in
-  let '(seen, segs) := zip3 (seq 0 nl) (a_seen a) (a_segs a) st in
-  {| a_st := st; a_seen := seen; a_segs := segs;
+Definition apply_sop (np nl ns : nat) (g : gates) (st : state) (op : sop) : state * gates :=
+  match op with
+  | Act a => (cstep np nl ns st a, g)
+  | GateL c => (st, {| g_al := c :: g_al g; g_as := g_as g; g_pl := g_pl g; g_ps := g_ps g |})
+  | GateS c => (st, {| g_al := g_al g; g_as := c :: g_as g; g_pl := g_pl g; g_ps := g_ps g |})
+  | OpenL c => (st, {| g_al := remove c (g_al g); g_as := g_as g; g_pl := remove c (g_pl g); g_ps := g_ps g |})
+  | OpenS c => (st, {| g_al := g_al g; g_as := remove c (g_as g); g_pl := g_pl g; g_ps := remove c (g_ps g) |})
+  end.
+
+Definition do_op (np nl ns : nat) (a : acc) (op : sop) : acc :=
+  let '(st0, g0) := apply_sop np nl ns (a_g a) (a_st a) op in
+  let '(st, g) := settle 400 np nl ns g0 st0 in
+  let '(seen, segs) := zip3 (g_pl g) (seq 0 nl) (a_seen a) (a_segs a) st in
+  {| a_st := st; a_g := g; a_seen := seen; a_segs := segs;
      a_sizes := (count_peers np st, count_sessions np st, count_alive nl ns st) :: a_sizes a |}.
 
-Definition run_script (np nl ns : nat) (ops : list action) : acc :=
+Definition run_script (np nl ns : nat) (ops : list sop) : acc :=
   fold_left (do_op np nl ns) ops
-    {| a_st := init; a_seen := repeat 0 nl; a_segs := repeat [] nl; a_sizes := [] |}.
+    {| a_st := init; a_g := no_gates; a_seen := repeat 0 nl; a_segs := repeat [] nl; a_sizes := [] |}.
 
 Definition fin (s : status) : option nat := match s with Ended e => Some e | _ => None end.
 
@@ -144,7 +185,7 @@ Definition sess_view (st : state) (k : nat * nat) : option (nat * bool * bool) :
 
 Record relay_case := {
   rc_np : nat; rc_nl : nat; rc_ns : nat;
-  rc_ops : list action;
+  rc_ops : list sop;
   rc_lobs : list (list (list nat) * option nat);   (* per listen call: segments (oldest first), final error *)
   rc_sobs : list (list sresp * option nat);        (* per session call: responses, final error *)
   rc_sizes : list (nat * nat * nat);               (* after every op: |peers|, |sessions|, calls not returned *)
